@@ -91,6 +91,21 @@ CHECKS = {
         "family). float32 cases whose float64 twin leaves float32's normal range are filtered and counted.",
         "DESIGN.md section 6 C03",
     ),
+    "C04": (
+        "exhaustive enumeration of expression programs up to depth 2 x all leaf-unit assignments x call forms, "
+        "differential against a reference interpreter on SI magnitudes with rounding-error propagation",
+        "Every program of depth <= 2 over 18 binary operations, 18 unary operations and 10 reductions is run with "
+        "every assignment of leaf units from a 14-unit alphabet (lengths, times, masses, velocities, angles, "
+        "dimensionless, a custom-registry unit) in operator, ufunc, in-place and out= form, and compared with a "
+        "reference interpreter that does the same mathematics on SI magnitudes with dimensional analysis; sums and "
+        "differences must come back in the left operand's unit. Comparisons and max/min between offset-scale and "
+        "absolute units are enumerated over all ordered pairs. Re-expression of any leaf is covered because every "
+        "unit assignment is compared with the same unit-free reference.",
+        "Reference interpreter and first-order rounding-error bounds are in checks/c04.py; programs rejected by the "
+        "reference type-checker belong to C01; floor/mod/comparison cases within 1e-6 of a rounding boundary are "
+        "filtered and counted. Depth 6 random DAGs are replaced by the complete depth-2 space.",
+        "DESIGN.md section 6 C04",
+    ),
     "C05": (
         "explicit-state closure of the unit algebra (all atoms, depth 2; depth 3 on a 20-unit alphabet) with a "
         "three-representation invariant in every reached state and exhaustive law checking on pairs/triples",
